@@ -8,6 +8,7 @@ import (
 	"seehuhn.de/go/pdf"
 	"seehuhn.de/go/pdf/verif/internal/gen"
 	"seehuhn.de/go/pdf/verif/internal/vt"
+	"seehuhn.de/go/pdf/verif/internal/wprog"
 )
 
 // oracle compares the model of the source with the re-opened target in
@@ -437,6 +438,17 @@ func (o *oracle) account() error {
 
 // streamClasses records what kind of stream was copied.
 func (o *oracle) streamClasses(so *srcObj) {
+	tgtEnc := cipherOf(o.c.Tgt) != "none"
+	tgtOld := wprog.Versions[o.c.Tgt.Version] < pdf.V1_5
+	if so.meta {
+		o.cls["metadata-stream"] = true
+		if o.c.SrcMeta == 2 && cipherOf(o.c.Src) != "none" {
+			o.cls["plaintext-metadata-of-encrypted-source"] = true
+			if tgtEnc && tgtOld {
+				o.cls["plaintext-metadata/encrypted-target<1.5"] = true
+			}
+		}
+	}
 	for i := range o.c.Nodes {
 		n := &o.c.Nodes[i]
 		if n.Num != so.ref.Number() || n.Kind != "stream" {
@@ -459,6 +471,12 @@ func (o *oracle) streamClasses(so *srcObj) {
 			o.cls["explicit-crypt-identity"] = true
 			if len(n.Filters) > 0 {
 				o.cls["explicit-crypt-identity+filters"] = true
+			}
+			if tgtEnc && tgtOld {
+				o.cls["crypt-identity/encrypted-target<1.5"] = true
+				o.cls["crypt-identity/target:"+cipherOf(o.c.Tgt)+"<1.5"] = true
+			} else if tgtEnc {
+				o.cls["crypt-identity/encrypted-target>=1.5"] = true
 			}
 			if cipherOf(o.c.Src) != "none" {
 				o.cls["explicit-crypt-identity:encrypted-source"] = true
